@@ -32,10 +32,7 @@ import (
 	paramproposal "github.com/cosmos/cosmos-sdk/x/params/types/proposal"
 	gogoproto "github.com/cosmos/gogoproto/proto"
 
-	ibcchanneltypes "github.com/cosmos/ibc-go/v8/modules/core/04-channel/types"
-	evmtypes "github.com/evmos/ethermint/x/evm/types"
-	feemarkettypes "github.com/evmos/ethermint/x/feemarket/types"
-
+	stakingtypes "github.com/cosmos/cosmos-sdk/x/staking/types"
 	denomtypes "github.com/dymensionxyz/dymension/v3/x/denommetadata/types"
 	dymnstypes "github.com/dymensionxyz/dymension/v3/x/dymns/types"
 	eibctypes "github.com/dymensionxyz/dymension/v3/x/eibc/types"
@@ -53,10 +50,12 @@ const (
 	oLock     = 2
 	oName     = 3
 	oLP       = 4
-	oBuy      = 5 // buy order on the name (owner = buyer)
-	oPlanRA   = 6 // rollapp r1 (not launched) carrying the IRO plan
-	oCtrl     = 7 // the controller role of the name (owner = current controller)
-	oSeq2     = 8 // a second, non-proposer sequencer of r0
+	oBuy      = 5  // buy order on the name (owner = buyer)
+	oPlanRA   = 6  // rollapp r1 (not launched) carrying the IRO plan
+	oCtrl     = 7  // the controller role of the name (owner = current controller)
+	oSeq2     = 8  // a second, non-proposer sequencer of r0
+	oProposer = 9  // the proposer role of r0 (owner = the actor whose sequencer is the current proposer)
+	oVote     = 10 // the sponsorship vote of a3 (addressed by the voter itself)
 	c20Actors = 5
 )
 
@@ -89,9 +88,11 @@ type c20Priv struct {
 	appID   uint64
 	stream  uint64
 	gauge   uint64
+	voteOK  bool
 	kinds   []*c20PK
 	byKey   map[string]*c20PK
-	ext     []string // type URLs of every routed message with an Authority field
+	ext     []string // type URLs of every routed governance-only message
+	extT    []c20ExtTarget
 	stats   map[string]int
 	ready   bool
 }
@@ -141,19 +142,13 @@ func newC20Priv(s *c20State) *c20Priv {
 		f.Fund(Actor(i), sdk.NewCoin("adym", pow10(1, 30)), sdk.NewCoin("stake", pow10(1, 30)))
 	}
 	p.defineKinds()
-	// every routed message type with an Authority field
-	reg := f.App.InterfaceRegistry()
-	for _, url := range reg.ListImplementations(sdk.MsgInterfaceProtoName) {
-		if f.App.MsgServiceRouter().HandlerByTypeURL(url) == nil {
-			continue
-		}
-		m, err := reg.Resolve(url)
-		if err != nil {
-			continue
-		}
-		if fld, ok := reflect.TypeOf(m).Elem().FieldByName("Authority"); ok && fld.Type.Kind() == reflect.String {
-			p.ext = append(p.ext, url)
-		}
+	// every routed governance-only message type (c20_ext_test.go)
+	if s.extHit == nil {
+		s.extHit, s.extMiss = map[string]bool{}, map[string]string{}
+	}
+	p.extT = p.extTargets()
+	for _, t := range p.extT {
+		p.ext = append(p.ext, t.url)
 	}
 	sort.Strings(p.ext)
 	return p
@@ -230,6 +225,10 @@ func (p *c20Priv) setup() {
 	p.gauge = gs[0].Id
 	f.Fund(authtypes.NewModuleAddress(streamertypes.ModuleName), sdk.NewCoin("adym", pow10(1, 26)))
 	p.fixStream()
+	// --- the community pool has something to spend
+	p.must("fund community pool", f.App.DistrKeeper.FundCommunityPool(f.Ctx, sdk.NewCoins(coinA(1_000_000)), Actor(0)))
+	// --- a3 stakes and votes for the gauge (sponsorship)
+	p.fixVote()
 	// --- a denom with metadata (for the update proposal)
 	c, err := p.legacy(p.gov, &denomtypes.CreateDenomMetadataProposal{Title: "t", Description: "d", TokenMetadata: []banktypes.Metadata{c20Meta("avrffix", "d")}})
 	p.must("denom proposal", err)
@@ -291,6 +290,39 @@ func (p *c20Priv) fixPlan() {
 		p.must("create plan", err)
 		p.planID = id
 	}
+}
+
+// fixVote: the voter (owner of oVote, a3 by default) delegates once and casts a vote
+func (p *c20Priv) fixVote() {
+	voter := Actor(p.ownerOr(oVote, 3))
+	vals, err := p.f.App.StakingKeeper.GetAllValidators(p.f.Ctx)
+	if err != nil || len(vals) == 0 {
+		p.s.ctrlErr["fixture:vote"] = "no validator"
+		return
+	}
+	if !p.voteOK {
+		if _, err := p.f.Deliver(&stakingtypes.MsgDelegate{DelegatorAddress: voter.String(), ValidatorAddress: vals[0].OperatorAddress,
+			Amount: sdk.NewCoin(sdk.DefaultBondDenom, pow10(1, 24))}); err != nil {
+			p.s.ctrlErr["fixture:vote"] = "delegate: " + err.Error()
+			return
+		}
+	}
+	if _, err := p.f.Deliver(&sponstypes.MsgVote{Voter: voter.String(), Weights: []sponstypes.GaugeWeight{{GaugeId: p.gauge, Weight: pow10(100, 18)}}}); err != nil {
+		p.s.ctrlErr["fixture:vote"] = "vote: " + err.Error()
+		return
+	}
+	p.voteOK = true
+}
+
+// proposerActor: which actor's sequencer is the current proposer of r0 (99 = nobody)
+func (p *c20Priv) proposerActor() int {
+	addr := p.f.App.SequencerKeeper.GetProposer(p.f.Ctx, p.ra0).Address
+	for i := 0; i < c20Actors; i++ {
+		if Actor(i).String() == addr {
+			return i
+		}
+	}
+	return 99
 }
 
 func (p *c20Priv) fixStream() {
@@ -423,6 +455,17 @@ func (p *c20Priv) defineKinds() {
 	add(&c20PK{key: "rollapp.MsgRemoveApp", obj: oRollapp, class: "owner", after: "app", rare: true, build: func(p *c20Priv, s sdk.AccAddress, n, _ int) (sdk.Msg, error) {
 		return &rollapptypes.MsgRemoveApp{Creator: s.String(), Id: p.appID, RollappId: p.ra0}, nil
 	}})
+	// proposer-only: the next state update of r0 (the comparison sits in x/sequencer's BeforeUpdateState hook)
+	add(&c20PK{key: "rollapp.MsgUpdateState", obj: oProposer, class: "owner", build: func(p *c20Priv, s sdk.AccAddress, n, _ int) (sdk.Msg, error) {
+		si, ok := p.f.App.RollappKeeper.GetLatestStateInfo(p.f.Ctx, p.ra0)
+		if !ok {
+			return nil, fmt.Errorf("no state info")
+		}
+		ra := p.f.App.RollappKeeper.MustGetRollapp(p.f.Ctx, p.ra0)
+		h := si.StartHeight + si.NumBlocks
+		return &rollapptypes.MsgUpdateState{Creator: s.String(), RollappId: p.ra0, StartHeight: h, NumBlocks: 1, RollappRevision: ra.LatestRevision().Number,
+			BDs: rollapptypes.BlockDescriptors{BD: []rollapptypes.BlockDescriptor{{Height: h, StateRoot: make([]byte, 32), Timestamp: p.f.Time, DrsVersion: 1}}}}, nil
+	}})
 	ro("dymns.MsgRegisterAlias", func(p *c20Priv, s sdk.AccAddress, n, _ int) (sdk.Msg, error) {
 		alias := "vrf" + strings.Repeat("x", 8) + string(rune('a'+n%26)) + string(rune('a'+(n/26)%26))
 		price := p.f.App.DymNSKeeper.PriceParams(p.f.Ctx)
@@ -501,6 +544,19 @@ func (p *c20Priv) defineKinds() {
 	nm("dymns.MsgCancelSellOrder", func(p *c20Priv, s sdk.AccAddress, n, _ int) (sdk.Msg, error) {
 		return &dymnstypes.MsgCancelSellOrder{AssetId: p.name, AssetType: dymnstypes.TypeName, Owner: s.String()}, nil
 	})
+	// continuing (raising) an existing buy order: its buyer only
+	add(&c20PK{key: "dymns.MsgPlaceBuyOrder", obj: oBuy, class: "owner", build: func(p *c20Priv, s sdk.AccAddress, n, _ int) (sdk.Msg, error) {
+		bo := p.f.App.DymNSKeeper.GetBuyOrder(p.f.Ctx, p.buyID)
+		if bo == nil {
+			return nil, fmt.Errorf("no buy order")
+		}
+		return &dymnstypes.MsgPlaceBuyOrder{AssetId: p.name, AssetType: dymnstypes.TypeName, Buyer: s.String(), ContinueOrderId: p.buyID,
+			Offer: bo.OfferPrice.AddAmount(math.NewInt(1))}, nil
+	}})
+	// the voter's own vote
+	add(&c20PK{key: "sponsorship.MsgRevokeVote", obj: oVote, class: "self", after: "vote", rare: true, build: func(p *c20Priv, s sdk.AccAddress, n, _ int) (sdk.Msg, error) {
+		return &sponstypes.MsgRevokeVote{Voter: s.String()}, nil
+	}})
 	add(&c20PK{key: "dymns.MsgCancelBuyOrder", obj: oBuy, class: "owner", after: "buy", rare: true, build: func(p *c20Priv, s sdk.AccAddress, n, _ int) (sdk.Msg, error) {
 		return &dymnstypes.MsgCancelBuyOrder{OrderId: p.buyID, Buyer: s.String()}, nil
 	}})
@@ -556,7 +612,7 @@ func (p *c20Priv) privileged(k *c20PK) string {
 // sequencer messages address the signer's own sequencer: a signer that owns another sequencer
 // than the kind's would be acting on its own object, not on a foreign one
 func (p *c20Priv) ownsOtherSeq(k *c20PK, tok string) bool {
-	if k.class != "self" {
+	if k.class != "self" || (k.obj != oSeq && k.obj != oSeq2) {
 		return false
 	}
 	for _, o := range []int{oSeq, oSeq2} {
@@ -643,6 +699,8 @@ func (p *c20Priv) exec(line string, f []string) string {
 			p.fixLP()
 		case "stream":
 			p.fixStream()
+		case "vote":
+			p.fixVote()
 		case "app":
 			p.nonce++
 			p.deliverMust("add app", &rollapptypes.MsgAddApp{Creator: Actor(p.owners[oRollapp]).String(), Name: fmt.Sprintf("fixapp%d", p.nonce), RollappId: p.ra0, Description: "d", Image: "https://dymension.xyz/i.png", Url: "https://dymension.xyz", Order: int32(1000 + p.nonce)})
@@ -653,7 +711,14 @@ func (p *c20Priv) exec(line string, f []string) string {
 		}
 		return "ok"
 	case "ext":
-		return p.execExt(line, f)
+		if !p.ready {
+			return "bad-op"
+		}
+		return p.execExt2(line, f)
+	case "rows":
+		// how many message types of the custom modules the application really routes
+		p.s.seq = append(p.s.seq, "rows")
+		return strconv.Itoa(len(p.customMsgKeys()))
 	case "signer":
 		if len(f) != 2 {
 			return "bad-op"
@@ -781,67 +846,21 @@ func (p *c20Priv) ownerRole(tok string) (int, bool) {
 	return 0, false
 }
 
-func (p *c20Priv) execExt(line string, f []string) string {
-	r := p.s.r
-	if len(f) != 3 {
-		return "bad-op"
-	}
-	signer, ok := p.signerAddr(f[2])
-	if !ok || f[2] == "gov" {
-		return "bad-op"
-	}
-	m, err := p.f.App.InterfaceRegistry().Resolve(f[1])
-	if err != nil {
-		return "bad-op"
-	}
-	reflect.ValueOf(m).Elem().FieldByName("Authority").SetString(signer.String())
-	// a few external types validate their params before the handler sees the authority: give them
-	// the module's current params so that the authority check is what rejects
-	switch x := m.(type) {
-	case *evmtypes.MsgUpdateParams:
-		x.Params = p.f.App.EvmKeeper.GetParams(p.f.Ctx)
-	case *feemarkettypes.MsgUpdateParams:
-		x.Params = p.f.App.FeeMarketKeeper.GetParams(p.f.Ctx)
-	case *ibcchanneltypes.MsgUpdateParams:
-		x.Params = p.f.App.IBCKeeper.ChannelKeeper.GetParams(p.f.Ctx)
-	}
-	sm, ok := m.(sdk.Msg)
-	if !ok {
-		return "bad-op"
-	}
-	before := p.f.StoreDigest()
-	_, derr := p.deliver(sm)
-	after := p.f.StoreDigest()
-	replay := append([]string{}, p.s.trace...)
-	if derr == nil {
-		r.Violate("C20/authority/"+f[1]+"/accepted-from-non-authority", "message with an Authority field signed by "+f[2]+" succeeded", replay...)
-		return "ok"
-	}
-	if before != after {
-		r.Violate("C20/no-state-change/"+f[1]+"/state-changed-by-failed-message", fmt.Sprintf("digest %s -> %s", before, after), replay...)
-	}
-	low := strings.ToLower(derr.Error())
-	if strings.Contains(low, "authority") || strings.Contains(low, "unauthorized") || strings.Contains(low, "expected") || strings.Contains(low, "only the gov") {
-		r.Hit("ext/rejected-by-authority-check")
-	} else {
-		r.Hit("ext/rejected-before-authority-check(zero-content)")
-		msg := derr.Error()
-		if len(msg) > 100 {
-			msg = msg[:100]
-		}
-		p.s.ctrlErr["ext:"+f[1]] = msg
-	}
-	p.s.seq = append(p.s.seq, "ext:"+f[1]+":rej")
-	return "rej"
-}
-
 // ---- generator --------------------------------------------------------------------------
 
 func (p *c20Priv) generate(run func(string) string, nOps int) {
 	g := p.s.r.Rng
-	for _, o := range [][2]int{{oRollapp, 0}, {oSeq, 1}, {oLock, 2}, {oName, 3}, {oLP, 2}, {oBuy, 0}, {oPlanRA, 0}, {oCtrl, 3}, {oSeq2, 4}} {
+	for _, o := range [][2]int{{oRollapp, 0}, {oSeq, 1}, {oLock, 2}, {oName, 3}, {oLP, 2}, {oBuy, 0}, {oPlanRA, 0}, {oCtrl, 3}, {oSeq2, 4}, {oProposer, 1}, {oVote, 3}} {
 		run(p.own(o[0], o[1]))
 	}
+	// the proposer role follows the sequencer module's own notion of the current proposer
+	syncProposer := func() {
+		if pa := p.proposerActor(); pa != p.owners[oProposer] {
+			p.s.r.Hit("priv/proposer-role-moved")
+			run(p.own(oProposer, pa))
+		}
+	}
+	syncProposer()
 	unpriv := func(k *c20PK) string {
 		for {
 			var tok string
@@ -860,6 +879,7 @@ func (p *c20Priv) generate(run func(string) string, nOps int) {
 	}
 	// the signer field of every routed custom-module message (ties the translator's descriptor decoding)
 	if !p.s.signersDone {
+		run("rows")
 		p.s.signersDone = true
 		for _, ku := range p.customMsgKeys() {
 			run("signer " + ku[0])
@@ -913,6 +933,7 @@ func (p *c20Priv) generate(run func(string) string, nOps int) {
 			v = "1"
 		}
 		obs := run(fmt.Sprintf("priv %s %d %s %s %s", k.key, k.obj, signer, v, no))
+		syncProposer()
 		if obs == "ok" && priv && k.after != "" {
 			if k.after == "buy" {
 				b := p.owners[oBuy]
@@ -947,6 +968,7 @@ func (p *c20Priv) finish() {
 	p.s.r.Set("priv-kinds-never-accepted-from-privileged", nopos)
 	p.s.r.Set("priv-last-dry-run-error-per-kind", p.s.ctrlErr)
 	p.s.r.Set("ext-authority-message-types", len(p.ext))
+	p.finishExt()
 }
 
 // ---- signer fields: which Go field of a custom message names its signer, found by probing -------
